@@ -150,7 +150,11 @@ func c14Run(raw []byte) (*Line, error) {
 				return nil, fmt.Errorf("value out of the generated range")
 			}
 			u0, c0, o0 := c14Snapshot(h)
-			h.Add(x)
+			if pan, _ := catch(func() { h.Add(x) }); pan {
+				// a panic inside Add is an observation (no counter named), not a harness failure
+				l.I(0).F(x).I(-1).I(-2).I(0)
+				continue
+			}
 			u1, c1, o1 := c14Snapshot(h)
 			if len(c1) != len(c0) {
 				return nil, fmt.Errorf("number of bins changed")
@@ -442,7 +446,7 @@ func c14Gen(tier string, rng *rand.Rand, emit func(interface{})) {
 		}
 	}
 	// (b) random linear shapes
-	nLin := 140
+	nLin := 300
 	if thorough {
 		nLin = 2500
 	}
@@ -482,7 +486,7 @@ func c14Gen(tier string, rng *rand.Rand, emit func(interface{})) {
 		emit(c14Case{Kind: 0, Min: F64(mn), Max: F64(mx), NBins: nb, Ops: ops})
 	}
 	// (c) log histograms: every base 2..10 x 1..4 bins per power
-	reps := 1
+	reps := 2
 	if thorough {
 		reps = 12
 	}
@@ -518,7 +522,7 @@ func c14Gen(tier string, rng *rand.Rand, emit func(interface{})) {
 		}
 	}
 	// (e) random larger counter vectors
-	nFix := 150
+	nFix := 300
 	if thorough {
 		nFix = 3000
 	}
